@@ -351,7 +351,41 @@ func runScalar(sc *ScalarScenario) (st scalarStats, err error) {
 		return st, fmt.Errorf("ToScalar(FromScalar(%T %#v)): %v", x, x, serr)
 	}
 	st.add(true, "round-trip-ok")
+	// What a conversion returned belongs to its caller: recycle the message (and the slice ToScalar returned) for
+	// something else, as a caller that pools or re-uses its messages would, and convert the same scalar again.
+	scribbleTV(tv)
+	if sl, isSlice := got.([]interface{}); isSlice {
+		for i := range sl {
+			sl[i] = "scribbled"
+		}
+	}
+	tv2, ferr2 := value.FromScalar(x)
+	if ferr2 != nil || tv2 == nil {
+		return st, fmt.Errorf("FromScalar(%T %#v) succeeded the first time; after the caller re-used the returned message for another value, the same call returned %v, %v", x, x, tv2, ferr2)
+	}
+	got2, terr2 := value.ToScalar(tv2)
+	if terr2 != nil {
+		return st, fmt.Errorf("ToScalar(FromScalar(%T %#v)) after the caller re-used the message of an earlier conversion returned error %q", x, x, terr2)
+	}
+	if serr := sameScalar(got2, want); serr != nil {
+		return st, fmt.Errorf("ToScalar(FromScalar(%T %#v)) after the caller re-used (overwrote) the message returned by an earlier conversion of the same scalar: %v", x, x, serr)
+	}
+	st.add(true, "converted-again-after-the-caller-overwrote-the-first-result")
 	return st, nil
+}
+
+// scribbleTV overwrites a TypedValue in place, nested leaf-list elements first.
+func scribbleTV(tv *gpb.TypedValue) {
+	if tv == nil {
+		return
+	}
+	if ll := tv.GetLeaflistVal(); ll != nil {
+		for _, e := range ll.Element {
+			scribbleTV(e)
+		}
+		ll.Element = append(ll.Element, &gpb.TypedValue{Value: &gpb.TypedValue_StringVal{StringVal: "scribbled"}})
+	}
+	tv.Value = &gpb.TypedValue_StringVal{StringVal: "scribbled"}
 }
 
 // ---------------------------------------------------------------- equal ----
